@@ -3,8 +3,10 @@
 output directory into /verif/seeded/<CXX>-<k>/ with a meta.json."""
 import json, os, shutil, sys, re
 pid, k, verify = sys.argv[1], sys.argv[2], sys.argv[3]
-src = f"/tmp/seed/out/{pid}/{k}"
-dst = f"/verif/seeded/{pid}-{k}"
+import os as _os
+root = _os.environ.get("SEEDROOT", "/tmp/seed")
+src = f"{root}/out/{pid}/{k}"
+dst = f"/verif/seeded/{pid}-{int(k) + int(_os.environ.get('SEEDOFFSET', '0'))}"
 os.makedirs(dst, exist_ok=True)
 for f in ("patch.diff", "demo.rs", "notes.md"):
     shutil.copy(f"{src}/{f}", f"{dst}/{f}")
